@@ -513,6 +513,34 @@ Qed.
 Theorem c07_table_fold_idem : ∀ tab, tab_non_ascii tab = true → tab_closed tab = true →
   ∀ s, table_fold tab (table_fold tab s) = table_fold tab s.
 Proof. exact table_fold_idem. Qed.
+(** Round 5 (consolidation): the whole property with hypotheses on GENERATED objects only.  For every casefold table [tab]
+    (computed from CPython for the strings of a run), every census list and every record of programs read off vmf.py:
+    four booleans — [tab_non_ascii], [tab_closed], [census_covered], [programs_ok], each evaluated by the kernel on every
+    run — give both conclusions of [c07_property] for the folding [table_fold tab]; all seven hypotheses about the
+    folding are discharged by [c07_table_fold_ok] / [c07_table_fold_idem].  What remains outside: the domain predicates
+    [fn_dom] / [ops_dom] (operations refer to existing objects of this map; add_ent is not given the worldspawn), and
+    that [table_fold tab] is str.casefold on the strings used (checked against CPython per batch). *)
+Theorem c07_property_generated_only : ∀ tab (census : list string) (P : programs),
+  tab_non_ascii tab = true → tab_closed tab = true → census_covered census = true → programs_ok P = true →
+  let fold := table_fold tab in
+  (∀ s, s ∈ census → ∃ f, fname_of s = Some f ∧
+     ∀ a st, fn_dom f a st → fn_w fold P f a st = fn_model fold f a st ∧ (Inv fold st → Inv fold (fn_w fold P f a st).1)) ∧
+  (∀ ops, ops_dom fold ops (init_w fold P) →
+     let st := run_w fold P ops (init_w fold P) in
+     Inv fold st ∧
+     (∀ k e, e ∈ ix_get (by_class st) k ↔ present st e ∧ cls_of fold st e = k) ∧
+     (∀ k e, e ∈ ix_get (by_target st) k ↔ present st e ∧ tgt_of fold st e = k) ∧
+     (∀ name e, e ∈ (search_sh fold (pg_search P) name st).1 ↔ search_spec fold name st e) ∧
+     cls_of fold st (spawn st) = ws ∧ spawn st ∈ ix_get (by_class st) ws).
+Proof.
+  intros tab census P Ht Hc Hcen HP. destruct (c07_table_fold_ok tab Ht) as (H1 & H2 & H3 & H4 & H5 & H6).
+  exact (c07_property (table_fold tab) H1 H2 H3 H4 (c07_table_fold_idem tab Ht Hc) H5 H6 census P Hcen HP).
+Qed.
+Example c07_property_generated_only_today :
+  tab_non_ascii tab_example = true ∧ tab_closed tab_example = true ∧
+  census_covered census_today = true ∧ programs_ok programs_today = true.
+Proof. repeat split; reflexivity. Qed.
+
 Example c07_table_fold_example : tab_non_ascii tab_example = true ∧ tab_closed tab_example = true ∧
   tab_closed [(7838, [223]); (223, [115; 115])]%N = false ∧ table_fold tab_example [83; 223; 304]%N = [115; 115; 115; 105; 775]%N.
 Proof. exact tab_example_ok. Qed.
